@@ -6,10 +6,21 @@ TB = ["rustc type checker, MIR construction and constant evaluator (nightly 1.97
 
 SOURCE_COMMITS = []
 NOT_APPLICABLE = {
-    "C17": "Bresenham end points, step shape, half-pixel distance and thickness bounds are inductive numeric invariants over runtime values; no sound static abstraction in reach decides them (DESIGN.md section 6)",
 }
 
 CHECKS = {
+    "C17": dict(
+        packs=["c17"], level="other",
+        explanation="Structural clauses of thin lines (Line::points()), decided for all inputs on path summaries of Points::{new, next}, major_length, Bresenham::{new, next} and BresenhamParameters::new: "
+                    "R17.1 the iterator yields exactly major_length(line) = max(|dx|, |dy|) + 1 points (counter argument: every call with points to go lowers the counter by one and returns one walker step, a call at zero ends); "
+                    "R17.2 the walk starts at line.start with error 0; R17.3 one walker step is exactly one major move preceded by at most one minor move and returns the position between them, the step without a minor move being the one taken for error <= threshold (so the first point is start itself); "
+                    "R17.4 in all 8 octants the major axis is that of the larger |delta|, both steps are unit vectors (Point::x_axis / y_axis of a (+-1, +-1) direction) pointing from start to end, the threshold is the non-negative major delta.",
+        claim="Decides for thin lines: number of points, first point, shape of every step (one pixel along the major axis, at most one along the minor axis), axis assignment and step directions. NOT decided: that the minor coordinate arrives at `end`, the half-pixel distance bound (both inductive numeric invariants of the error accumulator), and every clause about stroked lines of width > 1 (perpendicular Bresenham walks with thickness accumulators).",
+        note="Necessary conditions only; the numeric clauses of the property are outside static analysis (DESIGN.md section 6).",
+        technique="path-sensitive dataflow summaries over MIR (effects per path), counter/potential argument, complete decision table over the 8 octants",
+        trusted_base=TB,
+        assumptions=["coordinates at display scale (no i32 overflow in end - start)"],
+    ),
     "C04": dict(
         packs=["c04"], level="proof",
         claim="For every analysed feature configuration, every call site in non-test library code that can yield a DrawTarget error is proved to return that error at once and unchanged, with no further effectful call: decided for all targets, drawables and fault positions by dataflow over the compiler's MIR plus parametricity in the associated Error type.",
